@@ -43,6 +43,33 @@ def _floats(rng, n, dtype, style=None):
     return np.asarray(a, dtype=dtype).astype(float).tolist()
 
 
+def _inject(rng, xs, kinds, p):
+    """with probability p replace 1-3 elements by special values (IEEE semantics of the property are defined
+    for them: a window mean with an infinity is that infinity, an order statistic / pick is the element)"""
+    if xs and rng.random() < p:
+        for _ in range(rng.randint(1, 3)):
+            xs[rng.randrange(len(xs))] = {'+inf': float('inf'), '-inf': float('-inf'), 'nan': float('nan')}[rng.choice(kinds)]
+    return xs
+
+
+def _flag(value, form):
+    """an option given as bool, int or numpy bool"""
+    return {'bool': bool(value), 'int': int(bool(value)), 'npbool': np.bool_(value)}[form or 'bool']
+
+
+def _nonfinite(xs):
+    return any(v != v or v in (float('inf'), float('-inf')) for v in xs)
+
+
+def _eqnan(a, b):
+    """element-wise: equal, or both NaN"""
+    a, b = np.asarray(a), np.asarray(b)
+    eq = a == b
+    if a.dtype.kind == 'f' and b.dtype.kind == 'f':
+        eq = eq | (np.isnan(a) & np.isnan(b))
+    return eq
+
+
 def _ints(rng, n, dtype, style=None):
     g = np_rng(rng)
     ii = np.iinfo(dtype)
@@ -72,6 +99,8 @@ LAYOUTS_ND = ('fortran', 'transposed', 'strided', 'reversed', 'readonly', 'bigen
 def _junk(shape, dtype):
     """filler for the gaps of a strided base array: values unrelated to the data, valid in every dtype"""
     n = _prod(shape)
+    if np.dtype(dtype).kind in 'US':
+        return np.array(['zz', 'Q', 'filler'] * n)[:n].astype(dtype).reshape(shape)
     if np.dtype(dtype).kind == 'f':
         a = (np.arange(n) * 1.37 + 1000.5) * np.where(np.arange(n) % 2, -1.0, 1.0)
     else:
@@ -124,7 +153,7 @@ def _layout(a, layout):
     if 'readonly' in parts:
         base.setflags(write=False)
     view = sl(base)
-    if view.shape != a.shape or not np.array_equal(view, a):
+    if view.shape != a.shape or not bool(np.all(_eqnan(view, a))):
         raise AssertionError('layout helper broke the values (%s)' % layout)
     return view, base
 
@@ -160,6 +189,10 @@ class C14(Check):
             '2-D array, reversed views, Fortran-ordered / transposed / every-other-element 2-D and 3-D arrays, read-only and '
             'big-endian arrays and combinations; the result must meet the reference, equal the result for the contiguous '
             'copy, and the input memory (incl. the filler between strided samples) must be byte-identical afterwards.  '
+            'Special values are standing members of the classes: smooth inputs with +-inf/NaN (window mean by IEEE rules: '
+            'that infinity, NaN for both signs or a NaN; windows beside them must stay finite and right), width 0; medians and '
+            'running medians with +-inf; uniq on runs of equal -inf/+inf, sorted bool, str, bytes and uint8 (0/255) arrays; '
+            'rebin sample=True on +-inf/NaN and bool arrays; option flags given as bool, int or numpy bool, width as numpy int.  '
             'stale_sequence: 2-4 calls inside one case sharing sizes (rebin: the same (n0, n) pair on any axis/rank with '
             'sample and interpolating calls in both orders; smooth/median/running median: same n and width with flags, dtype '
             'and data changed; uniq with and without index), each call judged by the same oracle.  Non-trivial: smooth with made-odd width >= 3 that changes a '
@@ -171,7 +204,10 @@ class C14(Check):
                    'integer dtypes without /SAMPLE: each axis may return any integer within 1 (inclusive) of the exact '
                    'rational value (DESIGN C14), propagated as intervals across axes; copies (unchanged axis, '
                    'clamped tail beyond the last sample, output pixel 0) are exact',
-                   'domain: finite values, widths <= N (the made-odd width may be N+1), odd median widths <= smallest '
+                   'NaN is left out of median / uniq inputs (IDL treats NaN as missing in MEDIAN; NaN != NaN makes "equal runs" '
+                   'ambiguous) and non-finite values out of interpolating / averaging rebin (0*inf at a sample position is not '
+                   'fixed by the property); where they are used the expected value is the IEEE result of the defining formula',
+                   'domain: finite values unless stated above, widths <= N (the made-odd width may be N+1), odd median widths <= smallest '
                    'dimension, requested dimensions >= 1, |int64 data| <= 2^40',
                    'uniq with an index on a constant array is read literally: the subscript of the last element in '
                    'index order (index[n-1]), not n-1 (open known finding F-I3)',
@@ -184,7 +220,12 @@ class C14(Check):
                          'smooth_width_made_odd', 'median_even_upper', 'median_even_mean', 'median_odd',
                          'run1d_interior_points', 'run2d_interior_points', 'run_edge_points',
                          'uniq_runs_longer_than_1', 'uniq_constant_arrays', 'uniq_constant_with_nonidentity_index',
-                         'uniq_index_calls', 'rebin_lerp_fractional_positions', 'rebin_positions_exactly_on_a_sample',
+                         'uniq_index_calls', 'uniq_runs_of_equal_infinities', 'uniq_bool_arrays', 'uniq_string_arrays',
+                         'uniq_unsigned_arrays', 'smooth_windows_with_nonfinite_values',
+                         'smooth_finite_windows_next_to_nonfinite_values', 'smooth_width_0',
+                         'median_inputs_with_infinities', 'run_inputs_with_infinities', 'rebin_sample_nonfinite_inputs',
+                         'rebin_sample_bool_inputs', 'flag_given_as_int_or_numpy_bool',
+                         'rebin_lerp_fractional_positions', 'rebin_positions_exactly_on_a_sample',
                          'rebin_block_means', 'rebin_sample_calls', 'rebin_sample_fragile_pairs',
                          'rebin_mixed_expand_and_shrink', 'rebin_integer_dtype_cases',
                          'rebin_valueerror_nonintegral', 'rebin_valueerror_rank',
@@ -289,23 +330,27 @@ class C14(Check):
                 w = min(n, rng.choice([1, 2, 3, 4, 5]))
             else:
                 w = rng.randint(1, n)
+            if rng.random() < 0.03:
+                w = 0                                     # even -> made odd = 1: nothing to smooth
             dt = rng.choice(['f8', 'f8', 'f4'])
-            return {'fn': 'smooth', 'dtype': dt, 'x': _floats(rng, n, dt), 'w': w, 'trunc': cls == 'smooth_trunc',
-                    'kwform': rng.random() < 0.5}
+            return {'fn': 'smooth', 'dtype': dt, 'x': _inject(rng, _floats(rng, n, dt), ['+inf', '-inf', 'nan'], 0.15),
+                    'w': w, 'trunc': cls == 'smooth_trunc', 'kwform': rng.random() < 0.5,
+                    'flagform': rng.choice(['bool', 'bool', 'int', 'npbool']), 'wnp': rng.random() < 0.2}
         if cls == 'median_whole':
             dt = rng.choice(['f8', 'f8', 'f4'])
             if rng.random() < 0.7:
                 shape = [rng.randint(1, 8) if rng.random() < 0.4 else rng.randint(1, N)]
             else:
                 shape = [rng.randint(1, 8), rng.randint(1, 8)]
-            return {'fn': 'median', 'dtype': dt, 'shape': shape, 'x': _floats(rng, _prod(shape), dt),
-                    'even': rng.random() < 0.5}
+            return {'fn': 'median', 'dtype': dt, 'shape': shape,
+                    'x': _inject(rng, _floats(rng, _prod(shape), dt), ['+inf', '-inf'], 0.15),
+                    'even': rng.random() < 0.5, 'flagform': rng.choice(['bool', 'bool', 'int', 'npbool'])}
         if cls == 'median_run1d':
             dt = rng.choice(['f8', 'f8', 'f4'])
             n = rng.randint(1, 9) if rng.random() < 0.35 else rng.randint(1, N)
             ws = list(range(1, n + 1, 2))
             w = ws[-1] if rng.random() < 0.15 else rng.choice(ws)
-            return {'fn': 'run1d', 'dtype': dt, 'x': _floats(rng, n, dt), 'w': w}
+            return {'fn': 'run1d', 'dtype': dt, 'x': _inject(rng, _floats(rng, n, dt), ['+inf', '-inf'], 0.15), 'w': w}
         if cls == 'median_run2d':
             dt = rng.choice(['f8', 'f8', 'f4'])
             nr, nc = rng.randint(1, N2), rng.randint(1, N2)
@@ -313,14 +358,21 @@ class C14(Check):
                 nr, nc = max(nr, 3), max(nc, 3)
             ws = list(range(1, min(nr, nc) + 1, 2))
             w = ws[-1] if rng.random() < 0.2 else rng.choice(ws)
-            return {'fn': 'run2d', 'dtype': dt, 'shape': [nr, nc], 'x': _floats(rng, nr * nc, dt), 'w': w}
+            return {'fn': 'run2d', 'dtype': dt, 'shape': [nr, nc],
+                    'x': _inject(rng, _floats(rng, nr * nc, dt), ['+inf', '-inf'], 0.15), 'w': w}
         if cls in ('uniq_sorted', 'uniq_index'):
             return self._gen_uniq(cls, rng, i)
         if cls == 'rebin_float':
             dt = rng.choice(['f8', 'f8', 'f4'])
             shape, d, modes = self._geometry(rng, i)
-            return {'fn': 'rebin', 'dtype': dt, 'shape': shape, 'd': d, 'modes': modes, 'sample': rng.random() < 0.35,
-                    'x': _floats(rng, _prod(shape), dt, rng.choice(['normal', 'normal', 'ramp', 'spiky', 'ties']))}
+            sample = rng.random() < 0.35
+            x = _floats(rng, _prod(shape), dt, rng.choice(['normal', 'normal', 'ramp', 'spiky', 'ties']))
+            if sample:                                   # pure selection: defined for every value and dtype
+                x = _inject(rng, x, ['+inf', '-inf', 'nan'], 0.3)
+                if rng.random() < 0.1:
+                    dt, x = '?', [v > 0 for v in x]
+            return {'fn': 'rebin', 'dtype': dt, 'shape': shape, 'd': d, 'modes': modes, 'sample': sample, 'x': x,
+                    'flagform': rng.choice(['bool', 'bool', 'int', 'npbool'])}
         if cls == 'rebin_int':
             dt = INT_DTYPES[i % len(INT_DTYPES)]
             shape, d, modes = self._geometry(rng, i // len(INT_DTYPES), single=rng.random() < 0.5)
@@ -351,7 +403,7 @@ class C14(Check):
         raise KeyError(cls)
 
     def _gen_uniq(self, cls, rng, i):
-        dt = rng.choice(['i8', 'i4', 'f8', 'f4', 'i2'])
+        dt = rng.choice(['i8', 'i4', 'f8', 'f4', 'i2', 'f8', 'f4', 'u1', '?', 'U', 'S'])
         m = rng.random()
         if m < 0.12:
             nruns = 1
@@ -364,7 +416,26 @@ class C14(Check):
         if nruns == 1 and rng.random() < 0.7:
             lens = [rng.randint(1, 12)]
         # strictly increasing distinct values
-        if dt[0] == 'i':
+        if dt == '?':
+            vals = [False, True] if nruns >= 2 else [rng.random() < 0.5]
+            nruns = len(vals)
+            lens = [rng.randint(1, 6) for _ in vals]
+        elif dt in 'US':
+            pool = ['', 'AGN', 'BROADLINE', 'GALAXY', 'QSO', 'STAR', 'STARBURST', 'STARFORMING', 'Star', 'a', 'ab', 'b']
+            pool += [''.join(rng.choice('ABCXYZ019_') for _ in range(rng.randint(1, 9))) for _ in range(nruns)]
+            pool = sorted(set(pool))
+            nruns = min(nruns, len(pool))
+            start = rng.randint(0, len(pool) - nruns)
+            vals = pool[start:start + nruns]
+            lens = lens[:nruns]
+        elif dt == 'u1':
+            vals = sorted(rng.sample(range(256), min(nruns, 256)))
+            if rng.random() < 0.5:
+                vals[0], vals[-1] = (0, 255) if len(vals) > 1 else (vals[0], vals[0])
+                vals = sorted(set(vals))
+            nruns = len(vals)
+            lens = lens[:nruns]
+        elif dt[0] == 'i':
             v = rng.randint(-50, 50)
             vals = []
             for _ in range(nruns):
@@ -381,6 +452,18 @@ class C14(Check):
                 vals[k + 1] = float(np.nextafter(np.dtype(dt).type(vals[k]), np.dtype(dt).type(np.inf)))
                 vals = sorted(set(vals))
                 lens = lens[:len(vals)]
+        if dt[0] == 'f' and rng.random() < 0.4:
+            # equal infinities are equal values: a run of -inf sorts first, a run of +inf last
+            if rng.random() < 0.6:
+                vals = [float('-inf')] + vals
+                lens = [rng.choice([1, 2, 2, 3, 5])] + lens
+            if rng.random() < 0.7:
+                vals = vals + [float('inf')]
+                lens = lens + [rng.choice([1, 2, 2, 3, 5])]
+            if rng.random() < 0.15:                  # nothing but infinities
+                keep = [k for k, v in enumerate(vals) if v in (float('inf'), float('-inf'))]
+                if keep:
+                    vals, lens = [vals[k] for k in keep], [lens[k] for k in keep]
         xs = []
         for v, l in zip(vals, lens):
             xs += [v] * l
@@ -600,9 +683,10 @@ class C14(Check):
                           'layout %s: result shape %r, contiguous copy gives %r' % (layout, a.shape, b.shape)):
             return
         if allowed is None:
-            bad = a != b
+            bad = ~_eqnan(a, b)
         else:
-            bad = ~(np.abs(a.astype(np.longdouble) - b.astype(np.longdouble)) <= allowed)
+            with np.errstate(invalid='ignore'):
+                bad = ~(_eqnan(a, b) | (np.abs(a.astype(np.longdouble) - b.astype(np.longdouble)) <= allowed))
         bad = np.atleast_1d(bad)
         i = _first_bad(bad)
         out.expect(i is None, fn + '-layout-consistency',
@@ -617,10 +701,16 @@ class C14(Check):
         x, base, snap = self._present(out, 'smooth', x0, lay)
         w = case['w']
 
+        wa = np.int64(w) if case.get('wnp') else w
+        ff = case.get('flagform', 'bool')
+        if ff != 'bool':
+            out.count('flag_given_as_int_or_numpy_bool')
+
         def call(arr):
             if case['trunc']:
-                return self.P.smooth(arr, w, edge_truncate=True) if case['kwform'] else self.P.smooth(arr, w, True)
-            return self.P.smooth(arr, w, edge_truncate=False) if case['kwform'] else self.P.smooth(arr, w)
+                return (self.P.smooth(arr, wa, edge_truncate=_flag(True, ff)) if case['kwform']
+                        else self.P.smooth(arr, wa, _flag(True, ff)))
+            return self.P.smooth(arr, wa, edge_truncate=_flag(False, ff)) if case['kwform'] else self.P.smooth(arr, wa)
         r = call(x)
         self._unmodified(out, 'smooth', lay, base, snap)
         if not out.expect(isinstance(r, np.ndarray) and r.shape == x0.shape, 'smooth-shape',
@@ -634,7 +724,14 @@ class C14(Check):
         for i, (v, k, s) in enumerate(zip(val, kind, scale)):
             g = float(r[i])
             nk[k] += 1
-            if k == 'same':
+            if v != v or v in (float('inf'), float('-inf')):
+                # IEEE mean of a window holding a NaN / infinity (or the untouched special value itself)
+                out.expect((g != g) if v != v else g == v, 'smooth-edge-untouched' if k == 'same' else 'smooth-nonfinite-window',
+                           'point %d of %d (width %d, %s, layout %s): got %r, the window mean is %r' % (
+                               i, len(val), w, k, lay, g, v), i=i)
+                if k != 'same':
+                    out.count('smooth_windows_with_nonfinite_values')
+            elif k == 'same':
                 out.expect(g == v, 'smooth-edge-untouched',
                            'point %d of %d (width %d, layout %s) must be left untouched: got %r, input %r' % (
                                i, len(val), w, lay, g, v), i=i)
@@ -647,6 +744,11 @@ class C14(Check):
                            'point %d of %d (width %d -> %d, %s, layout %s): got %r, window mean %r' % (
                                i, len(val), w, R.odd_width(w), k, lay, g, v), i=i, err=err, scale=s)
         W = R.odd_width(w)
+        if w == 0:
+            out.count('smooth_width_0')
+        if _nonfinite(case['x']) and W >= 3:
+            out.count('smooth_finite_windows_next_to_nonfinite_values',
+                      sum(1 for v, k in zip(val, kind) if k != 'same' and v == v and abs(v) != float('inf')))
         if W >= 3:
             out.count('smooth_interior_points', nk['interior'])
             out.count('smooth_edge_untouched_points', nk['same'])
@@ -667,8 +769,14 @@ class C14(Check):
         lay = case.get('layout', 'contig')
         x, base, snap = self._present(out, 'median', x0, lay)
 
+        ff = case.get('flagform', 'bool')
+        if ff != 'bool':
+            out.count('flag_given_as_int_or_numpy_bool')
+
         def call(arr):
-            return self.P.median(arr, even=True) if case['even'] else self.P.median(arr)
+            if case['even']:
+                return self.P.median(arr, even=_flag(True, ff))
+            return self.P.median(arr) if ff == 'bool' else self.P.median(arr, even=_flag(False, ff))
         r = call(x)
         self._unmodified(out, 'median', lay, base, snap)
         exp, how, (lo, hi) = R.median_ref([float(v) for v in x0.ravel()], case['even'])
@@ -676,7 +784,15 @@ class C14(Check):
             return
         g = float(r)
         mag = max(abs(lo), abs(hi))
-        if how == 'even-mean':
+        if _nonfinite(case['x']):
+            out.count('median_inputs_with_infinities')
+        if how == 'even-mean' and (exp != exp or abs(exp) == float('inf')):
+            # mean of the two middle values when one is infinite: that infinity, or NaN for -inf and +inf
+            out.expect((g != g) if exp != exp else g == exp, 'median-even-mean',
+                       'even count with even=True (layout %s): got %r, mean of middle values (%r, %r) = %r' % (
+                           lay, g, lo, hi, exp))
+            out.count('median_even_mean')
+        elif how == 'even-mean':
             err = abs(g - exp)
             if mag > 0:
                 self._err('median_even_' + dt, err / mag)
@@ -700,7 +816,7 @@ class C14(Check):
             out.count('median_noncontiguous_calls')
         if lay != 'contig':
             self._consistent(out, 'median', lay, r, call(x0.copy()),
-                             allowed=2 * TOL[dt] * mag if how == 'even-mean' else None)
+                             allowed=2 * TOL[dt] * mag if how == 'even-mean' and mag < float('inf') else None)
         out.nontrivial = x0.size >= 2
         out.info['n'], out.info['how'], out.info['layout'] = int(x0.size), how, lay
 
@@ -740,6 +856,8 @@ class C14(Check):
         exp, inner = R.running_median_1d([float(v) for v in x0], case['w'])
         n = self._cmp_running(out, r, x0, exp, inner, 'run1d', case['w'])
         out.count('run1d_interior_points', n)
+        if _nonfinite(case['x']) and n:
+            out.count('run_inputs_with_infinities')
         if case['w'] >= 3 and n:
             out.count('run1d_width_ge3_cases')
         if not x.flags.c_contiguous and case['w'] >= 3:
@@ -758,6 +876,8 @@ class C14(Check):
         exp, inner = R.running_median_2d([[float(v) for v in row] for row in x0], case['w'])
         n = self._cmp_running(out, r, x0, exp, inner, 'run2d', case['w'])
         out.count('run2d_interior_points', n)
+        if _nonfinite(case['x']) and n:
+            out.count('run_inputs_with_infinities')
         if case['shape'][0] != case['shape'][1] and case['w'] >= 3:
             out.count('run2d_nonsquare_width_ge3')
         if not x.flags.c_contiguous and case['w'] >= 3:
@@ -802,6 +922,18 @@ class C14(Check):
                 out.count('uniq_constant_with_nonidentity_index')
         if len(exp) < n:
             out.count('uniq_runs_longer_than_1')
+        if case['dtype'][0] == 'f':
+            xs = case['x'] if idx is None else [case['x'][j] for j in idx]
+            for a, b in zip(xs[:-1], xs[1:]):
+                if a == b and a in (float('inf'), float('-inf')):
+                    out.count('uniq_runs_of_equal_infinities')
+                    break
+        elif case['dtype'] == '?':
+            out.count('uniq_bool_arrays')
+        elif case['dtype'] in 'US':
+            out.count('uniq_string_arrays')
+        elif case['dtype'][0] == 'u':
+            out.count('uniq_unsigned_arrays')
         out.count('uniq_runs', len(exp))
         if n >= 2 and not (x.flags.c_contiguous and (idx is None or iv.flags.c_contiguous)):
             out.count('uniq_noncontiguous_calls')
@@ -818,8 +950,14 @@ class C14(Check):
         d = tuple(int(v) for v in case['d'])
         sample = case['sample']
 
+        ff = case.get('flagform', 'bool')
+        if ff != 'bool':
+            out.count('flag_given_as_int_or_numpy_bool')
+
         def call(arr):
-            return self.P.rebin(arr, d, sample=True) if sample else self.P.rebin(arr, d)
+            if sample:
+                return self.P.rebin(arr, d, sample=_flag(True, ff))
+            return self.P.rebin(arr, d) if ff == 'bool' else self.P.rebin(arr, d, sample=_flag(False, ff))
         r = call(x)
         self._unmodified(out, 'rebin', lay, base, snap)
         # order of sample / interpolating calls per enlarged (n0, n) pair within this process (evidence that
@@ -840,8 +978,12 @@ class C14(Check):
         plans = [R.axis_plan(x0.shape[k], d[k], sample) for k in range(x0.ndim)]
         if sample:
             exp = R.rebin_pick_ref(x0, d)
-            bad = np.asarray(r) != exp
+            bad = ~_eqnan(r, exp)
             b = _first_bad(bad)
+            if dt == '?':
+                out.count('rebin_sample_bool_inputs')
+            elif dt[0] == 'f' and _nonfinite(case['x']):
+                out.count('rebin_sample_nonfinite_inputs')
             out.expect(b is None, 'rebin-sample',
                        'sample=True must pick input pixel floor(i*d0/d) on every axis (layout %s): first wrong element %s got %r expected %r'
                        % (lay, b, r[tuple(b)].item() if b else None, exp[tuple(b)].item() if b else None),
